@@ -197,6 +197,22 @@ harnesses! {
         vcover!(a.lo != 0.0 && (a.lo < 0.0) != (a.hi < 0.0), "opposite-sign low word reachable");
     }
 
+    /// Lemma L-mono (two f64, bit patterns): for finite h < k the neighbours are ordered, succ(h) <= k and h <= pred(k),
+    /// with succ(h) == k exactly when pred(k) == h, and adjacent floats differ in the parity of their last bit.
+    /// Adding the two inequalities (a step on the reals, not mechanised) gives h + succ h <= pred k + k; with
+    /// L-bracket (2 val(x) <= h + succ h, pred k + k <= 2 val(y), ties only for even high words) this is L-lex for
+    /// pairs with different high words: the chain cannot collapse to equality because that needs h and k both even
+    /// while adjacent.  (For equal high words lexicographic order is the order of the low words.)
+    #[kani::solver(kissat)]
+    fn lemma_mono_neighbours() {
+        let h = any_f64!(); let k = any_f64!();
+        vassume!(h.is_finite() && k.is_finite() && h < k && h.abs() < 1.0e308 && k.abs() < 1.0e308);
+        vassert!(succ(h) <= k && h <= pred(k), "neighbours are ordered: succ(h) <= k and h <= pred(k)");
+        vassert!((succ(h) == k) == (pred(k) == h), "succ(h) == k exactly when pred(k) == h");
+        vassert!(succ(h) != k || h == 0.0 || k == 0.0 || (h.to_bits() & 1) != (k.to_bits() & 1), "adjacent non-zero floats differ in the parity of the last bit");
+        vcover!(succ(h) == k && h != 0.0 && k != 0.0, "adjacent reachable");
+    }
+
     // Lemma L-bracket (one pair, Fix), eight cases; with monotonicity of succ/pred on bit
     // patterns and transitivity on the reals it gives L-lex (lexicographic == exact order).
     #[kani::solver(kissat)] #[kani::unwind(40)] fn lemma_bracket_p0() { bracket_case(0, false) }
